@@ -157,12 +157,18 @@ def gen_case(seed, tier='quick'):
     rng = random.Random(seed)
     cls = rng.choices(
         ['acyclic', 'chain_ok', 'selfloop', 'cycle', 'longcycle', 'fail',
-         'cycle_fail', 'dead_cycle', 'switch_cycle', 'fail_ladder'],
-        [24, 8, 8, 26, 4, 15, 5, 3, 6, 3])[0]
+         'cycle_fail', 'dead_cycle', 'switch_cycle', 'fail_ladder',
+         'deep_chain'],
+        [24, 8, 8, 26, 4, 15, 5, 3, 6, 3, 2])[0]
     if cls == 'fail_ladder':
         return gen_fail_ladder(rng, seed)
-    plain = cls in ('chain_ok', 'longcycle')
-    if cls == 'chain_ok':
+    plain = cls in ('chain_ok', 'longcycle', 'deep_chain')
+    if cls == 'deep_chain':
+        # an acyclic chain longer than the interpreter's stack allows: the
+        # evaluation may fail for lack of stack, it must not call that a
+        # cycle
+        n = rng.choice([130, 180, 260, 400, 700])
+    elif cls == 'chain_ok':
         n = rng.choice([1, 2, 3, 5, 10, 20, 40, 70, 100, rng.randint(1, 100)])
     elif cls == 'longcycle':
         n = rng.randint(17, 200)
@@ -172,7 +178,7 @@ def gen_case(seed, tier='quick'):
         n = rng.randint(1 if cls == 'selfloop' else 2, 16)
     W = 1 if (plain or cls == 'fail' and n > 12) else rng.choice(
         [1, 1, 2, 3, 4, 27, 30])
-    if W > 4 and cls not in ('chain_ok', 'longcycle', 'fail'):
+    if W > 4 and cls not in ('chain_ok', 'longcycle', 'fail', 'deep_chain'):
         # a wide sheet: columns run past Z (AA, AB ...)
         n = max(n, rng.randint(27, 34))
     two = (not plain) and n >= 4 and rng.random() < 0.3
@@ -211,7 +217,7 @@ def gen_case(seed, tier='quick'):
                 j = rng.choice(near if near and rng.random() < 0.6 else cands)
                 deps[i].append((j, kind()))
             depth[i] = 1 + max(depth[j] for j, _ in deps[i])
-    elif cls in ('chain_ok', 'fail'):
+    elif cls in ('chain_ok', 'fail', 'deep_chain'):
         for i in range(1, n):
             deps[i].append((i - 1, kind()))
             if not plain and n <= 12 and i >= 2 and rng.random() < 0.2:
@@ -241,7 +247,7 @@ def gen_case(seed, tier='quick'):
         terms = []
         for j, kd in deps[i]:
             if cls in ('acyclic', 'chain_ok', 'fail', 'selfloop',
-                       'dead_cycle', 'switch_cycle'):
+                       'dead_cycle', 'switch_cycle', 'deep_chain'):
                 dead_ok = (lambda d, i=i: d < i)
             else:
                 dead_ok = None
@@ -303,7 +309,7 @@ def gen_case(seed, tier='quick'):
     if cls == 'switch_cycle':
         # an entry that reaches the switch node
         entry = rng.choice([k for k in range(n) if k >= i] or [i])
-    elif cls in ('acyclic', 'chain_ok', 'fail', 'dead_cycle'):
+    elif cls in ('acyclic', 'chain_ok', 'fail', 'dead_cycle', 'deep_chain'):
         entry = n - 1 if rng.random() < 0.7 else rng.randrange(n)
     elif cls == 'selfloop':
         entry = rng.randrange(n)
@@ -356,6 +362,11 @@ def gen_case(seed, tier='quick'):
     if r < 0.25:
         first['fault'] = {'kind': 'interrupt',
                           'frac': round(rng.uniform(0.02, 1.15), 3)}
+    elif cls in ('acyclic', 'chain_ok') and nested is None and \
+            rng.random() < 0.08:
+        # little stack left: the application calls evaluate() from deep
+        # inside its own recursion
+        first['stack'] = rng.choice([400, 700, 850, 900, 930])
     ops.append(first)
     tail = [{'op': 'eval', 'target': f'{sheets[0]}!ZZ2'},
             {'op': 'eval', 'target': e}]
@@ -507,6 +518,7 @@ class Graph:
             self.live[a] = lv
             self.alle[a] = lv + al
         self._val = {}
+        self.deep = world.get('class') == 'deep_chain'
 
     def reach(self, e, edges):
         seen, stack = set(), [e]
@@ -584,7 +596,14 @@ class Graph:
                    if t['t'] == 'range')
 
 
-def expectation(g, e, cells, flaky_armed):
+def call_deep(depth, fn, *args):
+    """fn(*args) from `depth` frames further down the stack."""
+    if depth <= 0:
+        return fn(*args)
+    return call_deep(depth - 1, fn, *args)
+
+
+def expectation(g, e, cells, flaky_armed, low_stack=False):
     """What the statement allows for evaluate(e)."""
     Rl = g.reach(e, g.live)
     Ra = g.reach(e, g.alle)
@@ -621,6 +640,11 @@ def expectation(g, e, cells, flaky_armed):
             exp['allow'].append('cycle')
         if fa:
             exp['allow'].append('error')
+        if (g.deep or low_stack) and 'error' not in exp['allow']:
+            # running out of interpreter stack is a failure of the
+            # environment; the statement only forbids calling it a cycle
+            exp['allow'].append('error')
+            exp['stack_may_run_out'] = True
     return exp
 
 
@@ -758,7 +782,8 @@ def _run_case(case):
                 continue
             flaky_armed = uf.fail_on is not None and \
                 uf.flaky_calls < uf.fail_on
-            exp = expectation(g, addr, cells, flaky_armed)
+            exp = expectation(g, addr, cells, flaky_armed,
+                              low_stack=bool(op.get('stack')))
             fails_at_once = bool(g.nodes[addr].get('fail_first'))
             if not exp['cyc_live'] and not fails_at_once and \
                     simple_paths(g, addr) >= 400:
@@ -826,7 +851,14 @@ def _run_case(case):
                         uf.on_pause = hook
                 st = Stepper(**bud)
                 with st:
-                    out = outcome_of(ev.evaluate, target)
+                    if op.get('stack'):
+                        out = outcome_of(call_deep, op['stack'],
+                                         ev.evaluate, target)
+                        bump('fault:low_stack')
+                        bump('faults_fired')
+                        sig_faults.append('stack')
+                    else:
+                        out = outcome_of(ev.evaluate, target)
                 uf.on_pause = None
                 if nested_box:
                     bump('probe:second_evaluation_in_flight')
@@ -879,6 +911,8 @@ def _run_case(case):
                     stats.get(f'max:fail_depth@R={Lb}', 0), st.depth_seen)
             if exp['cyc_live'] and kind == 'cycle':
                 bump('probe:cycle_reported')
+            if exp.get('stack_may_run_out') and kind == 'error':
+                bump('probe:stack_ran_out_on_acyclic_model')
             if exp['allow'] == ['value'] and exp['R'] > 1:
                 bump('probe:acyclic_shared_value_ok')
             if not flaky_armed and any(
